@@ -480,8 +480,10 @@ func ParseTokenParam(buf []byte, offs int, param *PTokParam,
 					// found new space separated token after param value
 					// e.g.: foo;p1=5 bar =>  consider bar new param
 					param.state = paramFIN
-					// return separator pos (as expected)
-					if i >= offs+1 {
+					// return separator pos (as expected), if there is one
+					// (no whitespace after a quoted value: p="v"bar)
+					if i >= offs+1 && (buf[i-1] == ' ' || buf[i-1] == '\t' ||
+						buf[i-1] == '\r' || buf[i-1] == '\n') {
 						return i - 1, ErrHdrOk
 					} else {
 						return i, ErrHdrOk
